@@ -33,7 +33,8 @@ OWN = {
 REPORTS_GATE = ["r:wmonth:orig", "r:weast:orig", "x:wmonth"]
 REPORTS_SPAN = ["r:wyear:orig", "r:wpart:orig", "r:wmonth:orig", "r:wweek:orig", "r:wday:orig", "r:wweek:absent"]
 REPORTS_OBS = ["r:wyear:orig", "r:wyear:x3", "r:wyear:shuffled", "r:wyear:partnan", "r:wyear:partzero", "r:wyear:allnan", "r:wyear:absent",
-               "r:wpart:orig", "r:wpart:absent", "r:wpart:partnan", "r:wpart:partzero"]
+               "r:wpart:orig", "r:wpart:absent", "r:wpart:partnan", "r:wpart:partzero",
+               "r:wgap:orig", "r:wgap:allnan", "r:wgap:absent", "r:wgap:x3"]        # a weather feed with gaps: the fill must not look at usage
 
 SCENARIOS = {
     # name: template, baselines, reports, slots, ignore flags
@@ -54,7 +55,7 @@ FAMILIES = {
     "quick": [("daily", "legacy"), ("billing", "billing"), ("hourly", "default")],
     "thorough": [("daily", "legacy"), ("billing", "billing"), ("hourly", "default"), ("daily", "current"), ("daily", "custommaps"),
                  ("daily", "devmode"), ("hourly", "robust"), ("hourly", "dictseed"), ("hourly", "solar"), ("hourly", "solar_tf"),
-                 ("hourly", "solar_dict"), ("caltrack", "caltrack")],
+                 ("hourly", "solar_dict"), ("hourly", "supp"), ("caltrack", "caltrack")],
 }
 
 
@@ -210,15 +211,16 @@ def expand(hist, scen, fam, aggs, salt, remote_restart, prof=""):
         made.add(did)
         parts = did.split(":")
         if parts[0] == "b":
-            out.append({"op": "make", "d": did, "fam": fam, "kind": "baseline", "name": parts[1], "ghi": solar, "entry": r.choice(["frame", "series", "dtcol"]) if fam in ("daily", "billing") else r.choice(["frame", "dtcol"]) if fam == "hourly" else "frame"})
+            out.append({"op": "make", "d": did, "fam": fam, "kind": "baseline", "name": parts[1], "ghi": solar, "supp": supp, "entry": r.choice(["frame", "series", "dtcol"]) if fam in ("daily", "billing") else r.choice(["frame", "dtcol"]) if fam == "hourly" else "frame"})
         elif parts[0] == "r":
-            out.append({"op": "make", "d": did, "fam": fam, "kind": "reporting", "name": parts[1], "obs": parts[2], "ghi": solar,
+            out.append({"op": "make", "d": did, "fam": fam, "kind": "reporting", "name": parts[1], "obs": parts[2], "ghi": solar, "supp": supp,
                         "entry": r.choice(["frame", "frame", "dtcol"]) if fam != "caltrack" else "frame"})
         else:
             other = "hourly" if fam in ("daily", "billing") else "daily"
             out.append({"op": "make", "d": did, "fam": other, "kind": "reporting", "name": parts[1], "obs": "orig"})
 
     solar = fam == "hourly" and prof.startswith("solar")
+    supp = fam == "hourly" and prof == "supp"
     for a in hist:
         a = dict(a)
         op = a["op"]
